@@ -1,0 +1,59 @@
+//go:build verif
+
+// Contracts for package scorch: the term field reader over a multi-segment snapshot (read by
+// /verif/gocv; comment-only effect with the verif tag off).
+
+package scorch
+
+// ---------------------------------------------------------------------------
+// C08: global id = segment offset + local doc number; segments are visited in offset order
+// ---------------------------------------------------------------------------
+
+// scorch internal ids are 8-byte big-endian doc numbers: Value() is the number, and the id order
+// (bytes.Compare, abstracted by idKey in package search) is the numeric order.
+//@ uf idNum(id index.IndexInternalID) uint64
+//@ assume func index.IndexInternalID.Value(id)
+//@   pure
+//@   ensures result == idNum(id)
+//@ assume func index.NewIndexInternalID(buf, in)
+//@   ensures idNum(result) == in && len(result) == 8
+//@ assume func index.IndexInternalID.Compare(a, b)
+//@   pure
+//@   ensures iff(result < 0, idNum(a) < idNum(b)) && iff(result == 0, idNum(a) == idNum(b)) && result >= -1 && result <= 1
+
+// Assumed contract of a segment's postings iterator (scorch_segment_api / zapx): local doc numbers
+// strictly ascending, below the segment's document count; Advance(n) is forward-only ("callers
+// MUST NOT pass a docNum less than or equal to the currently visited posting") and lands at or after n.
+//@ ghostfield segment.PostingsIterator.pstarted bool
+//@ ghostfield segment.PostingsIterator.plast uint64
+//@ ghostfield segment.PostingsIterator.pdone bool
+//@ uf segCount(it segment.PostingsIterator) uint64
+//@ assume func segment.Posting.Number(p)
+//@   pure
+//@ assume func segment.PostingsIterator.BytesRead(it)
+//@   pure
+//@ assume func segment.PostingsIterator.Next(it)
+//@   requires it != nil
+//@   modifies it.pstarted, it.plast, it.pdone
+//@   ensures implies(result1 != nil, result0 == nil)
+//@   ensures implies(old(it.pdone) && result1 == nil, result0 == nil)
+//@   ensures implies(result1 == nil && result0 != nil, result0.Number() < segCount(it) && implies(old(it.pstarted), result0.Number() > old(it.plast)) && it.pstarted && it.plast == result0.Number() && !it.pdone)
+//@   ensures implies(result1 == nil && result0 == nil, it.pdone && it.pstarted == old(it.pstarted) && it.plast == old(it.plast))
+//@ assume func segment.PostingsIterator.Advance(it, docNum)
+//@   requires it != nil && (it.pdone || !it.pstarted || docNum > it.plast)
+//@   modifies it.pstarted, it.plast, it.pdone
+//@   ensures implies(result1 != nil, result0 == nil)
+//@   ensures implies(old(it.pdone) && result1 == nil, result0 == nil)
+//@   ensures implies(result1 == nil && result0 != nil, result0.Number() < segCount(it) && result0.Number() >= docNum && it.pstarted && it.plast == result0.Number() && !it.pdone)
+//@   ensures implies(result1 == nil && result0 == nil, it.pdone && it.pstarted == old(it.pstarted) && it.plast == old(it.plast))
+
+// A snapshot's offsets: one per segment, starting at 0, non-decreasing.
+//@ spec offsetsOK(is *IndexSnapshot) bool = len(is.offsets) == len(is.segment) && implies(len(is.offsets) > 0, is.offsets[0] == 0) && \
+//@     forall(p, 0, len(is.offsets), forall(q, p+1, len(is.offsets), is.offsets[p] <= is.offsets[q])) && forall(p, 0, len(is.offsets), is.offsets[p] < 4611686018427387904)
+
+// The segment of a global doc number: the last offset <= docNum.
+//@ func IndexSnapshot.segmentIndexAndLocalDocNumFromGlobal
+//@   props C08 C01
+//@   mode int
+//@   requires is != nil && offsetsOK(is) && len(is.offsets) > 0
+//@   ensures 0 <= result0 && result0 < len(is.offsets) && is.offsets[result0] <= docNum && (result0+1 == len(is.offsets) || docNum < is.offsets[result0+1]) && result1 == docNum - is.offsets[result0]
